@@ -190,6 +190,46 @@ func c17SpecialTTLs(c *h.Ctx) {
 	}
 }
 
+// c17ExpiryOverTime: expiry is a matter of the clock alone. A record that was alive at one sweep and whose lifetime ends
+// afterwards is removed by the NEXT sweep, whether or not anything else happened to the table in between (the two ttl classes
+// of the graph are decided at registration; here the class changes while the record sits in the table).
+func c17ExpiryOverTime(c *h.Ctx) {
+	a, b := net.IPv4(10, 8, 0, 1).To4(), net.IPv4(10, 8, 0, 2).To4()
+	for _, ty := range []nbtns.NameType{nbtns.Unique, nbtns.Group} {
+		for _, between := range []string{"nothing", "query", "other-name-refreshed"} {
+			tb := nbtns.NewNetBIOSNameServer(false)
+			c.Case(fmt.Sprintf("expiry-over-time:%d:%s", ty, between))
+			smp := map[string]interface{}{"type": fmt.Sprint(ty), "between_the_sweeps": between}
+			tb.RegisterName("OTHER", nbtns.Unique, b, time.Hour)
+			start := time.Now()
+			tb.RegisterName("SHORT", ty, a, 250*time.Millisecond)
+			tb.CleanExpiredNames() // first sweep: the record is (normally) still alive
+			_, _, e1 := tb.QueryName("SHORT")
+			alive := e1 == nil && time.Since(start) < 200*time.Millisecond
+			switch between {
+			case "query":
+				tb.QueryName("SHORT")
+			case "other-name-refreshed":
+				// (done after the lifetime has ended, below)
+			}
+			time.Sleep(500*time.Millisecond - time.Since(start))
+			if between == "other-name-refreshed" {
+				tb.RefreshName("OTHER", b)
+			}
+			tb.CleanExpiredNames() // second sweep: the lifetime ended 250 ms ago
+			c.Exec(5)
+			smp["alive_at_first_sweep"] = alive
+			if ow, _, e2 := tb.QueryName("SHORT"); e2 == nil {
+				c.Fail("nbtns.NetBIOSNameServer.clean", "expired-record-survives-sweep", fmt.Sprintf("registered for 250 ms, swept while alive, swept again 500 ms after registration: QueryName still returns %v", ow), smp)
+				continue
+			}
+			if err := tb.RegisterName("SHORT", nbtns.Unique, b, time.Hour); err != nil {
+				c.Fail("nbtns.NetBIOSNameServer.register", "expired-name-still-blocks", fmt.Sprintf("after the sweep removed the expired record another address cannot register the name: %v", err), smp)
+			}
+		}
+	}
+}
+
 // ntApply performs one operation on the real table and returns the observed result.
 func ntApply(tb *nbtns.NetBIOSNameServer, op, n, t, a string, e bool) (ntRes, []net.IP) {
 	// the specification knows two classes of ttl (alive / already expired); the concrete value rotates within its class
@@ -459,6 +499,7 @@ func c17Graph(c *h.Ctx) error {
 	wg.Wait()
 	c.Set("query_then_ops_histories", aliasRuns)
 	c17SpecialTTLs(c)
+	c17ExpiryOverTime(c)
 	if unreachable > 0 {
 		return fmt.Errorf("%d edges start in states unreachable in the emitted graph", unreachable)
 	}
